@@ -85,7 +85,8 @@ def h_codecs(ctx, n):
     for i in range(n):
         for j in range(i):
             ctx.assume(remote[i].payloadType != remote[j].payloadType, "offered payload types are distinct")
-    with Patch(rtp, DYNAMIC_PAYLOAD_TYPES=_Range(96, 128)):
+    real = rtp.DYNAMIC_PAYLOAD_TYPES  # the code's own constant, only its membership test is replaced
+    with Patch(rtp, DYNAMIC_PAYLOAD_TYPES=_Range(real.start, real.stop)):
         common = pc.find_common_codecs(local, remote)
     ctx.reach("codecs-intersected")
     # every selected codec was offered; order follows the offer
@@ -164,7 +165,7 @@ def h_extensions(ctx, kind, n):
     ctx.observe("n", len(common))
 
 
-def h_offer_answer(ctx, noffer, nanswer, data, policies=(0, 0)):
+def h_offer_answer(ctx, noffer, nanswer, data, policies=(0, 0), followup=None):
     """Real RTCPeerConnection pair (private event loop, no connectivity awaited): the solver chooses
     kinds / directions of the offerer's transceivers, what the answerer created beforehand, the
     bundle policies and a codec preference; the exchange must succeed and mirror the offer."""
@@ -244,6 +245,31 @@ def h_offer_answer(ctx, noffer, nanswer, data, policies=(0, 0)):
             if peer:
                 ctx.check(peer[0].currentDirection == pc.reverse_direction(t.currentDirection), "current-directions-complementary")
         ctx.observe("mlines", len(ad.media))
+        if followup:
+            # follow-up negotiation: one side adds a transceiver and offers again ("same": the first
+            # offerer, "swap": the first answerer).  Everything negotiated before must survive it.
+            x, y = (a, b) if followup == "same" else (b, a)
+            before = [(t.mid, t.sender.transport, t.sender.transport.transport) for t in a.getTransceivers() + b.getTransceivers()]
+            first_mids = [m.rtp.muxId for m in ad.media]
+            x.addTransceiver(ctx.choice("f_kind", ["audio", "video"]), direction=ctx.choice("f_dir", DIRECTIONS))
+            run(x.setLocalDescription(run(x.createOffer())))
+            run(y.setRemoteDescription(x.localDescription))
+            run(y.setLocalDescription(run(y.createAnswer())))
+            run(x.setRemoteDescription(y.localDescription))
+            ctx.reach("renegotiated")
+            ctx.check(x.signalingState == "stable" and y.signalingState == "stable", "followup-both-sides-stable")
+            od2 = SessionDescription.parse(x.localDescription.sdp)
+            ad2 = SessionDescription.parse(y.localDescription.sdp)
+            mids2 = [m.rtp.muxId for m in od2.media]
+            ctx.check(mids2[: len(first_mids)] == first_mids and len(mids2) == len(first_mids) + 1, "followup-keeps-media-sections-and-appends-one")
+            ctx.check([(m.kind, m.rtp.muxId) for m in ad2.media] == [(m.kind, m.rtp.muxId) for m in od2.media], "followup-answer-mirrors-media-sections")
+            for p_ in (a, b):
+                ctx.check(p_.connectionState != "closed" and p_.iceConnectionState != "closed", "followup-does-not-close-the-connection", "%s/%s" % (p_.connectionState, p_.iceConnectionState))
+            for mid, dtls, ice in before:
+                ctx.check(dtls.state != "closed" and ice.state != "closed", "followup-keeps-established-transports", "mid %s dtls=%s ice=%s" % (mid, dtls.state, ice.state))
+            for t in a.getTransceivers():
+                peer = [u for u in b.getTransceivers() if u.mid == t.mid]
+                ctx.check(len(peer) == 1 and peer[0].currentDirection == pc.reverse_direction(t.currentDirection), "followup-current-directions-complementary")
     finally:
         try:
             for p in (a, b):
@@ -291,9 +317,15 @@ HARNESSES = {
             for d in (False, True)
             for p in (((0, 0), (2, 1)) if tier == "quick" else [(x, y) for x in range(3) for y in range(3)])
             if (no or d) and not (tier == "quick" and no == 2 and na == 1 and p != (0, 0))
+        ]
+        + [
+            {"noffer": no, "nanswer": 0, "data": d, "policies": list(p), "followup": f}
+            for f in ("same", "swap")
+            for no, d in (((1, True), (2, False)) if tier == "quick" else ((1, False), (1, True), (2, False), (2, True)))
+            for p in (((0, 0), (2, 1)) if tier == "quick" else ((0, 0), (2, 1), (1, 2), (2, 2)))
         ],
         style="BMC over configurations (real objects, real event loop)",
-        bounds="offerer with 0..2 (3) transceivers (kind, direction, optional H.264-only preference solver-chosen) and optionally a data channel; answerer with 0..1 (2) transceivers created beforehand; all 3x3 bundle policies; one offer/answer round, no connectivity awaited",
+        bounds="offerer with 0..2 (3) transceivers (kind, direction, optional H.264-only preference solver-chosen) and optionally a data channel; answerer with 0..1 (2) transceivers created beforehand; all 3x3 bundle policies; one offer/answer round, no connectivity awaited; in a second job set a follow-up negotiation (same or swapped offerer adds one transceiver) must keep mids, transports and both connections alive",
         encoded=ENC,
         stubs=["none: real RTCPeerConnection objects; ICE gathers on local interfaces; background connection tasks are cancelled at the end of every path"],
         outside=OUT,
